@@ -49,4 +49,17 @@ def carriesL (id : String) : IdNodes → Bool
   | .cons n rest => carriesN id n || carriesL id rest
 end
 
+/-! ### the canvas and "nothing to render" -/
+
+/-- tiny-skia-path `Rect::to_non_zero_rect` on a box given by its sides: refused when a side is empty -/
+def toNonZero (l t r b : Rat) : Option (Rat × Rat × Rat × Rat) :=
+  if l < r ∧ t < b then some (l, t, r, b) else none
+
+/-- `Node::abs_layer_bounding_box` (groups: the layer box; shapes: the absolute object box), as a non-zero
+    rectangle, and `render_node` built on it: `none` = "nothing to render" -/
+def renderNodeCanvas (l t r b : Rat) (s : Rat) : Option (Rat × Rat) :=
+  match toNonZero l t r b with
+  | some (l, t, r, b) => some (s * (r - l), s * (b - t))
+  | none => none
+
 end Resvg.Render
